@@ -443,6 +443,24 @@ class MatEval:
                 # several returns: must agree under the current assumptions
                 pass
             return sub[-1][1] if len(sub) == 1 else self._pick(sub)
+        # constructor through a local name bound to a class or to a conditional choice of classes:
+        #   cls = A if cond else B; return cls(args)   ==   A(args) if cond else B(args)
+        if isinstance(e.func, ast.Name) and isinstance(env.get(e.func.id), tuple) and env[e.func.id][0] == "lazy":
+            bound = env[e.func.id][1]
+            if isinstance(bound, ast.Name) and bound.id in self.p.classes:
+                return self._call(f, ast.Call(func=bound, args=e.args, keywords=e.keywords), env)
+            if isinstance(bound, ast.IfExp) and all(isinstance(x, ast.Name) and x.id in self.p.classes for x in (bound.body, bound.orelse)):
+                arms = self._arms(bound.test)
+                calls = [ast.Call(func=x, args=e.args, keywords=e.keywords) for x in (bound.body, bound.orelse)]
+                if arms[0] is not None and arms[1] is not None:
+                    # decided by the sign assumption in force; without one, both arms must denote the same operator
+                    for asm, c in zip(arms, calls):
+                        if asm and all(self.assume.get(k2) == v2 for k2, v2 in asm.items()):
+                            return self._call(f, c, env)
+                va, vb = (self._call(f, c, env) for c in calls)
+                if self.alg.equal(self._mat(f, va), self._mat(f, vb)):
+                    return va
+                raise AnalysisError(f"{f.qualname}: conditional class choice with different operators: {norm(bound)[:50]}")
         # constructor of a matrix class / type(self)
         target = None
         if isinstance(e.func, ast.Name) and e.func.id in self.p.classes and self.p.classes[e.func.id].is_subclass_of("Matrix"):
